@@ -91,7 +91,7 @@ SPEC = dict(
          "sequence striped last, with shifted look-ahead rows, Index = linear sequence, counts = linear counts, "
          "backends agreeing) rejects the implementation's observation, or an op panicked (C04_striped_history: none "
          "may). DIFF = observation differs from the extracted Coq model run on the same history (matrix, len, wrap, "
-         "sampled Index incl. out-of-range panics; the model's own counting loops for L <= 1200 and after the last "
+         "sampled Index incl. out-of-range panics; the model's own counting loops for L <= 300 and after the last "
          "op). Non-trivial: distinct (alphabet, C, history) containing a stripe of a non-empty sequence whose length "
          "is not a multiple of C followed by at least one more operation.",
     trusted_base=[
@@ -99,9 +99,11 @@ SPEC = dict(
         "lemma about the translated network (NetProofs.net_coords and three forallb facts about the load/store "
         "lists) and in Example lemmas; no native_compute; all theorems closed under the global context",
         "extraction: ExtrOcamlBasic only (nat, list kept as extracted inductives); OCaml 4.13.1",
-        "translator translate/stripe_net.py (regex over avx2.rs::stripe_avx2: unpack! macro arms, 32 loads, "
-        "unpack! invocations, 32 stores, the block loop's `while` condition (small expression parser) and its three "
-        "end-of-iteration steps; dispatch.rs Stripe arm table) -> coq/stripe/GenStripeNet.v",
+        "translator translate/stripe_net.py (regex + a small expression parser over avx2.rs::stripe_avx2: unpack! "
+        "macro arms, 32 loads, unpack! invocations, 32 stores, the block loop's `while` condition and its three "
+        "end-of-iteration steps, the scalar tail loop (condition, column count, guard, the three index expressions, "
+        "step) and the wildcard fill loop (range, index expressions); dispatch.rs Stripe arm table) -> "
+        "coq/stripe/GenStripeNet.v; a source it cannot parse is a broken obligation",
         "lane semantics of _mm256_unpack{lo,hi}_epi{8,16,32,64} and _mm256_permute2x128_si256 as index lists "
         "(coq/stripe/NetModel.v), exercised by the correspondence check on every run",
         "hand-written OCaml driver ocaml/stripe/driver.ml (parsing, printing, comparison with the model; the "
@@ -109,7 +111,8 @@ SPEC = dict(
         "Rust harness harness/src/bin/stripe.rs (op interpreter over the public API, catch_unwind, hook "
         "lightmotif::pli::verif::force_backend)",
         "modelled by hand, tied by the correspondence check only: Stripe::stripe/stripe_into (pli/mod.rs), "
-        "stripe_avx2 outside the network and the block loop's condition/steps (resize, early return, scalar tail, fill), "
+        "the statement skeleton of stripe_avx2 around the translated parts (resize, early return, asserts, order of "
+        "the three loops, StripedSequence::new), "
         "StripedSequence::{new, configure, configure_wrap, Index, count_symbol(s)} (seq.rs), DenseMatrix at table "
         "level (dense.rs; layout is C19)",
     ],
